@@ -1,6 +1,7 @@
 package props
 
 import (
+	"bytes"
 	"fmt"
 	"reflect"
 
@@ -296,6 +297,11 @@ func drawC20(t *rapid.T) any {
 		alphabet = nil
 		for i, n := 0, rapid.IntRange(3, 8).Draw(t, "nalpha"); i < n; i++ {
 			alphabet = append(alphabet, gen.Key(t, c.Via == "json", "akey"))
+		}
+		if rapid.IntRange(0, 2).Draw(t, "longkey") == 0 {
+			// keys around and far beyond every plausible internal chunk size
+			n := rapid.SampledFrom([]int{255, 256, 511, 512, 513, 1023, 1025, 4097, 70000}).Draw(t, "longkeylen")
+			alphabet = append(alphabet, bytes.Repeat([]byte("k"), n))
 		}
 	}
 	nd := rapid.IntRange(1, 8).Draw(t, "ndocs")
